@@ -141,6 +141,8 @@ def posroot(d):
             d = d[2][0]
         elif d[0] == "call" and d[1] == ("g", "zip") and d[2]:
             d = d[2][0]
+        elif d[0] == "call" and d[1] == ("g", "map") and len(d[2]) == 2:
+            d = d[2][1]
         elif d[0] == "call" and d[1] == ("g", "range") and len(d[2]) == 1 and d[2][0][0] == "call" and d[2][0][1] == ("g", "len") \
                 and len(d[2][0][2]) == 1:
             d = d[2][0][2][0]
@@ -169,6 +171,10 @@ def elem_at(d, lid):
         return elem_at(d[2][0], lid)
     if d[0] == "call" and d[1] == ("g", "range") and len(d[2]) == 1:
         return ("ix", lid, posroot(d))
+    if d[0] == "call" and d[1] == ("g", "map") and len(d[2]) == 2 and d[2][0][0] in ("g", "ext"):
+        return ("call", d[2][0], (elem_at(d[2][1], lid),), ())
+    if d[0] == "phi":
+        return ("phi", d[1], elem_at(d[2], lid), elem_at(d[3], lid))
     return ("it", lid, d)
 
 
